@@ -53,6 +53,12 @@ pub assume_specification<'a, K: Ord, V, A: std::alloc::Allocator + Clone, F: FnO
         !bentry_old(e).contains_key(bentry_key(e)) ==> default.ensures((), *r),
         bentry_fin(e) == bentry_old(e).insert(bentry_key(e), *final(r));
 
+pub assume_specification<'a, K: Ord, V, A: std::alloc::Allocator + Clone>[btree_map::Entry::<'a, K, V, A>::or_insert](e: btree_map::Entry<'a, K, V, A>, default: V) -> (r: &'a mut V)
+    ensures
+        bentry_old(e).contains_key(bentry_key(e)) ==> *r == bentry_old(e)[bentry_key(e)],
+        !bentry_old(e).contains_key(bentry_key(e)) ==> *r == default,
+        bentry_fin(e) == bentry_old(e).insert(bentry_key(e), *final(r));
+
 pub assume_specification<K: Ord, V, A: std::alloc::Allocator + Clone>[BTreeMap::<K, V, A>::pop_first](m: &mut BTreeMap<K, V, A>) -> (r: Option<(K, V)>)
     ensures
         // (that the popped key is the least one is not stated: no verified property depends on it)
